@@ -12,10 +12,15 @@
                            wide/tall toom42 chunks with the recursive last chunk), every add-back and mpn_add_n exact (no carry lost)
     mp_pairs_spec          the row form `mpW` used above IS the header's sum over index pairs (i, j), n-1 ≤ i+j ≤ m-1
     mulmid_pairs_spec      mpn_mulmid on operands of exactly an and bn limbs against the pair sum directly
-  Not covered (run only): mpn_toom42_mulmid itself (it enters by its specification, hypothesis `TmSpec`; `tmSpec_ok` shows the
-  stand-in used by the driver meets it), mpn_mulhigh_n.
+    toom42_odd_fixup_partial   mpn_toom42_mulmid (model Mpir/Model/MulMidToom.lean, op mm_toom42): the odd row and diagonal step
+                           (toom42_mulmid.c:208-232) turns MP of the even sub-problem into MP({ap,2n-1},{bp,n}) exactly
+  Not covered (run only, op mm_toom42 compares all n+2 limbs): the even core of mpn_toom42_mulmid — transposed interpolation with the
+  correction terms e0..e5 of add_err1_n/add_err2_n/sub_err2_n, the neg flag, the in-place corrections and the transposed
+  evaluation (`toomFix`); so `TmSpec` of the toom42 model is NOT proved and `mulmid_n_spec` / `mulmid_spec` keep it as a hypothesis
+  (`tmSpec_ok` shows it is satisfiable).  mpn_mulhigh_n.
 -/
 import MpirProofs.Lemmas.MulMid
+import MpirProofs.Lemmas.MulMidToom
 namespace Mpir.MulMid
 open Mpir
 
@@ -98,5 +103,29 @@ theorem mulmid_pairs_spec (T : Nat) (tm : List Nat → List Nat → Nat → List
 example : val (mulmid 1 tmSpec 4 [B - 1, B - 1, B - 1, B - 1] 4 [B - 1, B - 1]) = mpPairs [B - 1, B - 1, B - 1, B - 1] [B - 1, B - 1] :=
   (mulmid_pairs_spec 1 tmSpec tmSpec_ok [B - 1, B - 1, B - 1, B - 1] [B - 1, B - 1] (by decide) (by decide) (by decide) (by decide)
     (by decide)).1
+
+/-- FULL STATEMENT (not proved): `TmSpec (fun a b n => toom42 T n a b n)` for every n ≥ 4 (the C's ASSERT) and T ≥ 4.
+    PROVED PART — the odd row and diagonal of mpn_toom42_mulmid (toom42_mulmid.c:208-232, `toomOdd`): for n ≥ 2 (odd n ≥ 5 in the C),
+    if R = {rp, n+1} holds the cells already done, MP({ap+1, 2n-3}, {bp, n-1}) (the even sub-problem on the advanced ap and the low
+    n-1 limbs of b), then after `cy = mpn_addmul_1 (rp, ap-1, n, bp[n-1]); ADDC_LIMB (rp[n+1], rp[n], rp[n], cy);
+    mpn_mulmid_basecase (e, ap+n-1, n-1, bp, n-1); mpn_add_n (rp+n-1, rp+n-1, e, 3)` the n+2 limbs are MP({ap,2n-1},{bp,n})
+    exactly (the ADDC and the 3-limb add lose no carry).  MISSING: the even core (interpolation, e0..e5 corrections, neg,
+    evaluation) computing MP for n = 2m from the three half-size middle products. -/
+theorem toom42_odd_fixup_partial (a b R : List Nat) (n : Nat) (ha : Limbs a) (hb : Limbs b) (hbl : b.length = n) (hn : 2 ≤ n)
+    (hnB : n ≤ B) (hal : 2 * n - 1 ≤ a.length)
+    (hR : val R = mpW (n - 1) (a.drop 1) (b.take (n - 1)) ∧ Limbs R ∧ R.length = n + 1) :
+    val (toomOdd a b n R) = mpW n a b ∧ Limbs (toomOdd a b n R) ∧ (toomOdd a b n R).length = n + 2 := by
+  obtain ⟨k, rfl⟩ : ∃ k, n = k + 1 := ⟨n - 1, by omega⟩
+  simp only [Nat.add_sub_cancel] at hR
+  exact toomOdd_isMP a b R k ha hb hbl (by omega) hnB hal hR
+
+-- non-vacuity: n = 3 on all-ones operands, R computed by the basecase for the even sub-problem; and the whole model at n = 5, 4
+example : toomOdd [B - 1, B - 1, B - 1, B - 1, B - 1] [B - 1, B - 1, B - 1] 3
+    (mulmid_basecase [B - 1, B - 1, B - 1, B - 1] 3 [B - 1, B - 1]) = mulmid_basecase [B - 1, B - 1, B - 1, B - 1, B - 1] 5 [B - 1, B - 1, B - 1] := by
+  decide +kernel
+example : toom42 36 5 [1, 2, 3, 4, 5, 6, 7, 8, B - 1] [B - 1, 1, 2, 3, B - 2] 5 =
+    mulmid_basecase [1, 2, 3, 4, 5, 6, 7, 8, B - 1] 9 [B - 1, 1, 2, 3, B - 2] := by decide +kernel
+example : toom42 36 4 [1, 2, 3, B - 4, 5, 6, B - 1] [B - 1, 1, 2, B - 2] 4 =
+    mulmid_basecase [1, 2, 3, B - 4, 5, 6, B - 1] 7 [B - 1, 1, 2, B - 2] := by decide +kernel
 
 end Mpir.MulMid
